@@ -7,6 +7,7 @@ import (
 	"os"
 	"os/exec"
 	"path/filepath"
+	"runtime"
 	"runtime/debug"
 	"sort"
 	"strconv"
@@ -90,6 +91,7 @@ func main() {
 		}
 	}
 	if *oblsJSON {
+		r.applyDecisions() // what the parent's self-test must see is the verdict, not the raw shape-rule results
 		b, _ := json.Marshal(r.Obls)
 		fmt.Printf("OBLS-JSON %s\n", b)
 	}
@@ -202,8 +204,16 @@ func selfTest(r *Report, repo, verif string) {
 			files = append(files, all...)
 			// behaviour-preserving refactorings written by independent maintainers-for-a-day (not generated by mkvariants.py)
 			// every one of them must leave every property's check silent, whichever property its author had in mind
+			// — those written for this property, and those that touch a file the property is anchored in (a change to
+			// other files cannot alter what this property's rules and evaluators look at beyond what the ALL-renames
+			// variants and the regression tool tools/regress.sh — every patch against every property — already cover)
 			ext, _ := filepath.Glob(filepath.Join(verif, "variants", "keep-ext", "*.patch"))
-			files = append(files, ext...)
+			anch := anchorFiles(verif, r.Prop)
+			for _, f := range ext {
+				if strings.HasPrefix(filepath.Base(f), r.Prop+"-") || touchesAny(f, anch) {
+					files = append(files, f)
+				}
+			}
 		}
 		sort.Strings(files)
 		for _, f := range files {
@@ -225,7 +235,14 @@ func selfTest(r *Report, repo, verif string) {
 	baseObls := r.baseObls
 	results := make([]map[string]any, len(vs))
 	var wg sync.WaitGroup
-	sem := make(chan struct{}, 6)
+	par := runtime.NumCPU() - 4
+	if par < 4 {
+		par = 4
+	}
+	if par > 12 {
+		par = 12
+	}
+	sem := make(chan struct{}, par)
 	for i, v := range vs {
 		wg.Add(1)
 		go func(i int, v variantMeta) {
@@ -248,6 +265,48 @@ func selfTest(r *Report, repo, verif string) {
 			r.Undecided(r.Prop+".selftest:"+vs[i].Kind+"/"+name, "", "rule self-test failed: %v", res["detail"])
 		}
 	}
+}
+
+// anchorFiles: the files property prop is anchored in (properties.jsonl).
+func anchorFiles(verif, prop string) map[string]bool {
+	out := map[string]bool{}
+	b, err := os.ReadFile(filepath.Join(verif, "properties.jsonl"))
+	if err != nil {
+		return out
+	}
+	for _, ln := range strings.Split(string(b), "\n") {
+		var p struct {
+			ID      string `json:"id"`
+			Anchors struct {
+				Files []string `json:"files"`
+			} `json:"anchors"`
+		}
+		if json.Unmarshal([]byte(ln), &p) == nil && p.ID == prop {
+			for _, f := range p.Anchors.Files {
+				out[f] = true
+			}
+		}
+	}
+	return out
+}
+
+// touchesAny: the patch changes one of the files (an empty set means: unknown, take the patch).
+func touchesAny(patch string, files map[string]bool) bool {
+	if len(files) == 0 {
+		return true
+	}
+	b, err := os.ReadFile(patch)
+	if err != nil {
+		return true
+	}
+	for _, ln := range strings.Split(string(b), "\n") {
+		if rest, ok := strings.CutPrefix(ln, "+++ b/"); ok {
+			if f, _, _ := strings.Cut(rest, "\t"); files[strings.TrimSpace(f)] {
+				return true
+			}
+		}
+	}
+	return false
 }
 
 func runVariant(self, prop, repo, verif string, v variantMeta, baseObls int) map[string]any {
